@@ -23,6 +23,24 @@ CLAIMED = {
    note="Trusted: go/ssa, checker/lenprove.go (controls on every run). fromEntry's recombination is listed, not armed. Integer overflow ignored.", ref="§4 C10"),
 }
 # -- add further claimed properties as CLAIMED["Cxx"] = dict(...) below this line --
+CLAIMED["C01"] = dict(technique="static analysis: determinism scan over the call-graph closure of merge and linearisation, dominance of the equal-id edge, SSA backward slices with control dependence (post-dominator based) for the inputs of the merged head set",
+   text="Decides structural necessary conditions of convergence on every path: the merge/linearisation closure has no source of nondeterminism, a foreign-id log changes nothing, the merged heads depend on all four inputs a correct merge needs (both head sets, the new items' predecessor links, the destination's predecessor index), the apply phase is unconditional, and map copies/merges never alias or mutate their sources. It does not decide the merge algebra itself.",
+   note="Trusted: go/ssa, go/cfg, call graph over first-party implementers. Over-approximate data dependence (may miss a violation, never invents one).", ref="§4 C01")
+CLAIMED["C03"] = dict(technique="static analysis: AST provenance of the comparator argument of every Sort call in log methods, may-dataflow over go/cfg with flag correlation for re-sort-before-pop, visited-set gate and end-hash stop in traverse",
+   text="Decides on every path that the linearisation is driven by the configured comparator, that the work stack is re-sorted after every growth before the next pop, that predecessors enter the stack only through the visited gate and are then marked, that the end hash stops the walk, and that values() reads the log's current heads and index. It does not decide completeness/causality of the walk for every DAG.",
+   note="Trusted: go/cfg, go/types.", ref="§4 C03")
+CLAIMED["C04"] = dict(technique="static analysis: three-point monotone lattice {none, >=, >} over go/ssa with max-like helpers verified by the linear prover and accumulate-max loop recognition; AST object identity and SSA field dependence for head/insert/return and the new entry's fields; linear prover for the reference budget",
+   text="Decides on every path: identity and clock are changed together, the appended entry's clock time is strictly above the maximum head time (or above the old clock with all other clock stores covering their heads), the created entry is the single new head / the inserted / the returned entry, its predecessors, clock and id derive from the log's current state, and the reference budget is proved <= the requested pointer count. It does not decide that next equals the head set nor that references lie in the causal past.",
+   note="Trusted: go/ssa, checker/lenprove.go and c04.go's lattice. Remote clocks are assumed to exceed their predecessors'.", ref="§4 C04")
+CLAIMED["C05"] = dict(technique="static analysis: freshness must-dataflow over go/cfg with caller propagation over the call graph for every mutating entry/clock method call, index-growth and accessor-leak rules on the AST",
+   text="Decides on every path that log operations mutate only fresh (unshared) entries and clocks, that the ordered index is never shrunk or replaced outside nil-initialisation and the bounded merge, that merge candidates are absent keys, and that exported accessors return copies of the index. It does not decide byte-identity under a dishonest store nor the subsequence relation of successive Values().",
+   note="Trusted: go/cfg, go/types, call graph. A mutation under a never-assigned guard field is recorded as dead-guarded.", ref="§4 C05")
+CLAIMED["C07"] = dict(technique="static analysis: SSA backward slices from the json.Marshal argument and from the Hashable literal (field coverage), element-wise list image check, injectivity table for conversions on the signing path, dominance of the signature check over Verify's success returns",
+   text="Decides on every path that every signed part reaches the signed bytes, that link lists are signed element-wise from the getter's own result, that no lossy or ambiguous conversion lies on the signing path (reports the known []byte->string->encoding/json collapse as a known finding), and that Verify only succeeds after the signature check of that call. It does not decide unforgeability.",
+   note="Trusted: go/ssa; encoding/json injective on valid UTF-8. One open known finding (payload UTF-8 coercion).", ref="§4 C07")
+CLAIMED["C08"] = dict(technique="static analysis: table extraction and sibling agreement (atlas builder chains vs struct types, writer literals vs reader selectors with codec pairs), determinism/statelessness scan over the encode and decode closures, dominance rules for hash handling",
+   text="Decides agreement between the atlas and the structs, between every writer and reader field with matching codec pairs, absence of order-/time-/history-dependent constructs on the encode and decode closures (including pooled or memoised scratch state), canonical key sorting, sorted manifest heads, and that the hash is never part of the encoded view and is set from the requested identifier. It does not decide byte-exactness of third-party encoders or the pinned vectors.",
+   note="Trusted: go/types, go/cfg, call graph. Third-party encoders trusted.", ref="§4 C08")
 CLAIMED["C17"] = dict(technique="static analysis: dominance facts over go/cfg (write-before-publish in Append/CreateEntryWithIO, checked synchronous Dag().Add before every success return of each IO.Write), call-graph who-may-call rule for Dag().Add",
    text="Decides the side-effect order that crash safety rests on, for every path: memory is updated and the entry returned only on the success edge of the block write, every IO.Write returns an identifier only after a direct, checked Dag().Add (a failed pin cannot reach a success return), only IO.Write implementations add blocks, and the manifest writer publishes ToJSONLog() of its own log. It does not decide that predecessors are in the store nor durability of the store.",
    note="Trusted: go/cfg, call graph restricted to first-party implementers, coreiface contracts (Add is synchronous).", ref="§4 C17")
